@@ -51,19 +51,35 @@ def sym(E, p, kf):
     lens = [E.int(f"l{r}", 0, p["L"]) for r in range(R)]
     S = E.concretize(z3.Sum(lens) if lens else z3.IntVal(0))
     scan = op == "cumsum" or op.startswith("acc_")
-    if scan and op == "acc_bitwise_xor":
+    fdt = p.get("dtype") if str(p.get("dtype", "")).startswith("float") else None
+    if fdt:
+        from . import c01
+        data = c01.gen_cells(E, S, fdt)                      # bit patterns; exact IEEE comparisons and arithmetic
+        for d in data:
+            E.assume(z3.Not(z3.fpIsNaN(np._to_fp(d, np.dtype(fdt)))))       # rows containing NaN are outside the claim (numpy's own unique treats them specially)
+    elif scan and op == "acc_bitwise_xor":
         data = [E.bv(f"d{q}", 64) for q in range(S)]
     else:
         data = [E.int(f"d{q}", -DV, DV) for q in range(S)]
     if "KF-C07-1" in kf and op.startswith("acc_") and R:
         E.assume(z3.Or(lens[-1] > 0, S == 0))      # open known finding: trailing empty row
-    ra = mk_ragged(RaggedArray, data, lens)
+    ddt = fdt or "int64"
+    ra = mk_ragged(RaggedArray, data, lens, ddt)
     got = outcome(lambda: (run_op(ra, p), ra))
     case = dict(p=p, lens=lens, data=data)
     if got["k"] != "tuple":
         return dict(goal=False, got=got, case=case)
     res, after = got["items"]
-    conds = [specs.obs_goal(after, dict(k="ragged", flat=data, lens=lens, dtype="int64"))]
+    conds = [specs.obs_goal(after, dict(k="ragged", flat=data, lens=lens, dtype=ddt))]
+    if fdt:
+        fp = lambda x: np._to_fp(x, np.dtype(fdt))
+        veq = lambda a, b: z3.fpEQ(fp(a), fp(b))
+        vle = lambda a, b: z3.fpLEQ(fp(a), fp(b))
+        vlt = lambda a, b: z3.fpLT(fp(a), fp(b))
+    else:
+        veq = lambda a, b: a == b
+        vle = lambda a, b: a <= b
+        vlt = lambda a, b: a < b
     starts, _ = specs.prefix_starts(lens)
     ends = [s + l for s, l in zip(starts, lens)]
 
@@ -90,9 +106,9 @@ def sym(E, p, kf):
         for r in range(R):
             for q in range(S):
                 if q + 1 < S:
-                    conds.append(z3.Implies(z3.And(inrow(r, q), inrow(r, q + 1)), g[q] <= g[q + 1]))
-                cnt_in = z3.Sum([z3.If(z3.And(inrow(r, t), data[t] == data[q]), 1, 0) for t in range(S)])
-                cnt_out = z3.Sum([z3.If(z3.And(inrow(r, t), g[t] == data[q]), 1, 0) for t in range(S)])
+                    conds.append(z3.Implies(z3.And(inrow(r, q), inrow(r, q + 1)), vle(g[q], g[q + 1])))
+                cnt_in = z3.Sum([z3.If(z3.And(inrow(r, t), veq(data[t], data[q])), 1, 0) for t in range(S)])
+                cnt_out = z3.Sum([z3.If(z3.And(inrow(r, t), veq(g[t], data[q])), 1, 0) for t in range(S)])
                 conds.append(z3.Implies(inrow(r, q), cnt_in == cnt_out))
     elif op in ("unique", "unique_counts"):
         if op == "unique_counts":
@@ -116,12 +132,12 @@ def sym(E, p, kf):
         for r in range(R):
             for q in range(N):
                 if q + 1 < N:
-                    conds.append(z3.Implies(z3.And(inout(r, q), inout(r, q + 1)), g[q] < g[q + 1]))
-                conds.append(z3.Implies(inout(r, q), z3.Or(*[z3.And(inrow(r, t), data[t] == g[q]) for t in range(S)]) if S else False))
+                    conds.append(z3.Implies(z3.And(inout(r, q), inout(r, q + 1)), vlt(g[q], g[q + 1])))
+                conds.append(z3.Implies(inout(r, q), z3.Or(*[z3.And(inrow(r, t), veq(data[t], g[q])) for t in range(S)]) if S else False))
                 if c is not None:
-                    conds.append(z3.Implies(inout(r, q), specs.eqv(c["flat"][q], z3.Sum([z3.If(z3.And(inrow(r, t), data[t] == g[q]), 1, 0) for t in range(S)]) if S else z3.IntVal(0))))
+                    conds.append(z3.Implies(inout(r, q), specs.eqv(c["flat"][q], z3.Sum([z3.If(z3.And(inrow(r, t), veq(data[t], g[q])), 1, 0) for t in range(S)]) if S else z3.IntVal(0))))
             for t in range(S):
-                conds.append(z3.Implies(inrow(r, t), z3.Or(*[z3.And(inout(r, q), g[q] == data[t]) for q in range(N)]) if N else False))
+                conds.append(z3.Implies(inrow(r, t), z3.Or(*[z3.And(inout(r, q), veq(g[q], data[t])) for q in range(N)]) if N else False))
     elif op == "diff":
         n = p["n"]
         if res["k"] != "ragged":
@@ -150,6 +166,22 @@ def conc(case):
     scan = op == "cumsum" or op.startswith("acc_")
     if op == "acc_bitwise_xor":
         data = [d - (1 << 64) if d >= 1 << 63 else d for d in data]
+    fdt = p.get("dtype") if str(p.get("dtype", "")).startswith("float") else None
+    if fdt:
+        fvals = common.typed(data, fdt).tolist()
+        frows = common.rows_of(fvals, lens)
+        ra = mk_ragged(RaggedArray, data, lens, fdt)
+        got = outcome(lambda: (run_op(ra, p), ra))
+        pat = lambda rs: common.ref_ragged([common.cells(np.array(r, dtype=fdt)) for r in rs], fdt)
+        same = pat(frows)
+        if op == "sort":
+            exp = pat([sorted(r) for r in frows])
+        elif op == "unique":
+            exp = pat([sorted(set(x + 0.0 for x in r)) for r in frows])
+        elif op == "unique_counts":
+            us = [sorted(set(x + 0.0 for x in r)) for r in frows]
+            exp = dict(k="tuple", items=[pat(us), common.ref_ragged([[sum(1 for x in r if x == v) for v in u] for r, u in zip(frows, us)], "int64")])
+        return got, dict(k="tuple", items=[exp, same]), {"float_eq": True}
     rows = common.rows_of(data, lens)
     ra = mk_ragged(RaggedArray, data, lens)
     got = outcome(lambda: (run_op(ra, p), ra))
@@ -180,6 +212,8 @@ def jobs(tier, seed):
            dict(base, op="acc_bitwise_xor"), dict(base, op="sort"), dict(base, op="sort", via="np"),
            dict(base, op="unique", R=3, L=3), dict(base, op="unique_counts", R=3, L=3),
            dict(base, op="diff", n=1), dict(base, op="diff", n=1, via="np"), dict(base, op="diff", n=2), dict(base, op="diff", n=3, L=4)]
+    for op in ("sort", "unique", "unique_counts"):
+        out.append(dict(base, op=op, dtype="float16", R=2, L=3))
     return [dict(h="C07.rowwise", p=p) for p in out]
 
 
